@@ -853,7 +853,9 @@ pub fn run_history(acc: &mut Acc, r: &mut Rng, steps: u64, variant: u64) {
             let owner = wd.core.owner.clone();
             catch_up_epochs(&mut wd.app, &wd.core, &owner);
             let e = wd.epoch();
-            wd.log(format!("epoch -> {e}"));
+            wd.log(format!("epoch -> {e} (+ snapshot)"));
+            let inc = wd.incentive.clone();
+            let _ = exec(&mut wd.app, &owner, &inc, &im::ExecuteMsg::TakeGlobalWeightSnapshot {}, &[]);
         };
         let e = wd.epoch();
         op_open_flow(acc, &mut wd, 0, &asset, 50_000 + extra, Some(e), Some(e + 40), 0);
@@ -868,8 +870,15 @@ pub fn run_history(acc: &mut Acc, r: &mut Rng, steps: u64, variant: u64) {
         next_epochs(&mut wd, 1);
         op_claim(acc, &mut wd, 3);
         next_epochs(&mut wd, r.range(8, 20));
-        op_claim(acc, &mut wd, 1);
-        op_claim(acc, &mut wd, 2);
+        let c1 = op_claim(acc, &mut wd, 1);
+        let c2 = op_claim(acc, &mut wd, 2);
+        if std::env::var("VERIF_DEBUG_PRELUDE").is_ok() {
+            let inc = wd.incentive.clone();
+            let u1 = wd.users[1].clone();
+            let res = exec(&mut wd.app, &u1, &inc, &im::ExecuteMsg::Claim {}, &[]);
+            eprintln!("claims ok: {c1} {c2}; again: {:?}", res.map(|_| ()).map_err(|e| e.lines().last().unwrap_or("").to_string()));
+            eprintln!("PRELUDE {:#?} flows={:?}", wd.tail(40), wd.flows().iter().map(|f| (f.flow_id, f.flow_asset.amount.u128(), f.claimed_amount.u128(), f.start_epoch, f.end_epoch)).collect::<Vec<_>>());
+        }
     }
     for _step in 0..steps {
         let ui = r.idx(4);
